@@ -295,6 +295,7 @@ impl<T: Eq> PartialEq for VecSet<T> {
 
 /// re-export of the wrappers living in private modules
 pub use crate::match_tree::verif_hooks as match_tree;
+pub use crate::matcher::pattern_hooks as pattern;
 
 /// FIFO stand-in for `std::collections::VecDeque` with the API subset `traversal::Level`
 /// uses (`new`, `push_back`, `pop_front`, `extend`): a growing `Vec` plus a head index, so no
